@@ -469,6 +469,10 @@ func drawCase(rt *rapid.T) *descriptor {
 	blk := gen.GenProgram(rt, o)
 	c := &drive.Case{Prog: blk, Lang: rapid.SampledFrom([]string{"expr", "xpath"}).Draw(rt, "lang"), Vars: map[string]any{}, Answers: map[string][]model.Answer{}}
 	c.DeclSeed = rapid.IntRange(0, 100).Draw(rt, "declSeed")
+	// id shapes: prefixes / suffixes of one another, ids that differ only in
+	// case, dots, dashes and non-ASCII letters (every one retrievable by
+	// exactly that id)
+	c.IDStyle = rapid.IntRange(0, 3).Draw(rt, "idStyle")
 	for _, v := range gen.IntVars {
 		c.Vars[v] = int64(rapid.IntRange(0, 3).Draw(rt, v))
 	}
